@@ -47,10 +47,10 @@ schedule in which `close` is taken when `got.length = k`.
 | `Iterator.BufferedChannel(ctx, n)` | Feeder | `cap = n`, `eager` (goroutine started by the constructor with the caller's context: `Operation.Launch`), `srcChecksCtx`, `PostHook(out.Close)`; the consumer is user code on the raw channel (modelled by the same drain consumer; there is no `Close`) | iterator.go:464-474, operation.go:66-78 |
 | `dt.Map.Producer/Keys/Values`, `adt.Map` iterators | Feeder | `cap = 0`, `.Go().Once()`, `srcChecksCtx = false` (`for k, v := range m { send.Check(ctx, ..) }` reads the next entry without looking at the context), `defer pipe.Close()` / `PostHook(pipe.Close)` | dt/map.go:197-249, adt/map.go:184-195 |
 | `MergeIterators(its…)` | FanIn(n) | one producer per input with a *private* source, `cap = 0`, producers select on `wctx2`, closer = `wg.Wait(wctx)` then `cancel(wctx2)` then `pipe.Close` (`closerCtx`) | iterator.go:140-167 |
-| `Producer.GenerateParallel`, `itertool.Generate` | FanIn(n) | n producers over one *shared* source (the generator function), `cap = 2n+1`, `srcChecksCtx = false` (the generator is user code), same closer | producer.go:511-554 |
+| `Producer.GenerateParallel`, `itertool.Generate` | FanIn(n) | n producers over one *shared* source (the generator function), `cap = 2n+1`, `srcChecksCtx = true` (since `fix:` c9331e6 a worker looks at `ctx.Err()` before it calls the generator again; the same commit makes a worker cancel the group when the generator fails with anything but a plain `io.EOF` — an error path, C03, not taken in the failure-free and Close/cancel runs modelled here: on `ctx.Err()` and on a failed `Write` the worker returns the context error, which cancels nothing), same closer | producer.go:511-566 |
 | `Iterator.Split n` | FanOut(n) | reader goroutine started once (`.Go().Once()`) by whichever output is advanced first *with that output's context*, split pipe `cap = 0`, the n outputs are read by user goroutines (= the workers; `hasOut = false`, no closer) | iterator.go:347-364 |
 | `Iterator.ProcessParallel`, `itertool.ParallelForEach/Process/Worker` | FanOut(n) | Split(n) + n worker goroutines `ReadAll(split.Producer())` under `ctx' = WithCancel(ctx)`; `hasOut = false`; closer = the calling goroutine `wg.Wait(Background)` (`closerCtx = false`) | iterator.go:546-581, itertool.go:23-76 |
-| `fun.Map`, `itertool.Map` (`Transform.ProcessParallel`) | FanOut(n) | Split(n) + n workers that send the transformed item into `output` (`cap = 0`, `hasOut`), all under `wctx2`; closer `wg.Wait(wctx)`, `wcancel`, `output.Close` (`closerCtx`) | transform.go:80-122, 287-306 |
+| `fun.Map`, `itertool.Map` (`Transform.ProcessParallel`) | FanOut(n) | Split(n) + n workers that send the transformed item into `output` (`cap = 0`, `hasOut`), all under `wctx2`; closer `wg.Wait(wctx)`, `wcancel`, `output.Close` (`closerCtx`); `workerCancels`: since `fix:` c9331e6 the worker's processor is wrapped in `WithErrorFilter(err ≠ nil → wcancel)`, and without processing errors `mapPullProcess` returns an error exactly when its send failed (`output.Check(ctx, val)` false: `wctx2` done or `output` closed), so a worker that gives up its item also cancels `wctx2` — which is already done at that moment | transform.go:80-123, 288-307 |
 | `Iterator.ParallelBuffer n` | FanOut(max 1 n) | a goroutine (`.Once().Go()`: `onceGo`) runs `ProcessParallel(buf.Processor())`: workers send into `buf` (`cap = n`, `hasOut`); closer = that goroutine: `wg.Wait(Background)` (`closerCtx = false`), deferred cancel, `buf.Close` | iterator.go:605-609 |
 | concurrent `ReadOne` on `ChannelIterator(ch)` | FanOut(n) | `hasOut = false`, no closer; the "reader" is the user goroutine feeding `ch`; a buffered `ch` is modelled by the rendezvous pipe (same outcome multisets; the driver compares these outcomes as multisets only). All readers share the iterator's context: the first reader that sees EOF closes it, so another parked reader may return `context.Canceled` instead of `io.EOF` (observation; nothing is lost) | iterator.go:100,231-254, chan.go:216-229 |
 
@@ -215,7 +215,7 @@ namespace FanIn
 
 structure Cfg where
   cap : Nat               -- MergeIterators 0; GenerateParallel 2n+1
-  srcChecksCtx : Bool     -- MergeIterators: `ReadOne(wctx2)`; GenerateParallel: the generator is user code
+  srcChecksCtx : Bool     -- a producer looks at `ctx.Err()` before it reads: MergeIterators `ReadOne(wctx2)`; GenerateParallel since c9331e6
   closerCtx : Bool        -- the closer's `Wait(wctx)` returns when the iterator's context is done (both: true)
   deriving Repr, DecidableEq
 
@@ -385,6 +385,7 @@ structure Cfg where
   closerCtx : Bool        -- the closer's Wait returns when the iterator's context is done (Map)
   onceGo : Bool           -- `.Once().Go()` (ParallelBuffer)
   lazy : Bool             -- started by the first ReadOne of the output (Map, ParallelBuffer)
+  workerCancels : Bool    -- a worker whose send fails cancels the group's context itself (Map since c9331e6)
   deriving Repr, DecidableEq
 
 structure St where
@@ -521,14 +522,16 @@ def step (c : Cfg) (s : St) : Act → Option St
     match s.hold[i]? with
     | some x =>
       if c.hasOut = true ∧ s.wdone2 = true then
-        some { s with hold := s.hold.eraseIdx i, wexited := s.wexited + 1, droppedW := s.droppedW ++ [x] }
+        some { s with hold := s.hold.eraseIdx i, wexited := s.wexited + 1, droppedW := s.droppedW ++ [x],
+                      wcancel := s.wcancel || c.workerCancels }
       else none
     | none => none
   | .wSendClosed i =>
     match s.hold[i]? with
     | some x =>
       if c.hasOut = true ∧ s.oclosed = true then
-        some { s with hold := s.hold.eraseIdx i, wexited := s.wexited + 1, droppedW := s.droppedW ++ [x] }
+        some { s with hold := s.hold.eraseIdx i, wexited := s.wexited + 1, droppedW := s.droppedW ++ [x],
+                      wcancel := s.wcancel || c.workerCancels }
       else none
     | none => none
   | .wFinish i =>
